@@ -26,7 +26,7 @@ LEVEL_TEXT = ('Randomised exploration: every executed statement instance of ever
               'analysis result of the current tree must cover; the fixed-point clause is checked on every graph.')
 LEVEL_NOTE = 'Trusted: CPython executing the instrumented copy; vf/instrument.py event placement; attribution of closure reads to the owning activation.'
 
-GEN = {'unbound_reads': False, 'excl': ('no_try_else', 'no_for_target_rebind')}
+GEN = {'unbound_reads': False, 'excl': ('no_for_target_rebind',)}
 
 
 def budget(tier):
